@@ -41,13 +41,10 @@ def kind_wire(kind):
     return [{"yesno": [0], "error": [1], "help": [2], "getinput": [3, wc], "getpassinput": [4, wc], "password": [5]}[name]]
 
 
-def _spec(refresh=(), show=(), inputs=(), default=((), None), prompt_none=0):
+def _spec(refresh=(), show=(), inputs=(), default=((), None), prompt_none=0, answer0=A_NOATTR):
+    """12th element: sc_answer0, the `answer` attribute before any callback (as Drv_advspec prints it: 0 | 1 | 2)."""
     return [[], list(refresh), list(show), [], [[cps(k), list(c), r] for k, c, r in inputs],
-            [list(default[0]), [] if default[1] is None else [default[1]]], prompt_none, 1, 0, 0, 0]
-
-
-def init_answer(a):
-    return [[15, 1, [[13, a]], []]]
+            [list(default[0]), [] if default[1] is None else [default[1]]], prompt_none, 1, 0, 0, 0, answer0]
 
 
 def test_input(conds, key):
@@ -67,18 +64,17 @@ def get_input_screen_spec(conds):
 def adv_spec(kind):
     name, conds = parse_kind(kind)
     if name == "yesno":
-        return _spec(refresh=init_answer(A_OTHER),
-                     inputs=[("yes", [[13, A_TRUE]], R_CLOSE), ("no", [[13, A_OTHER]], R_CLOSE)],
-                     default=([], R_DISCARDED))
+        return _spec(inputs=[("yes", [[13, A_TRUE]], R_CLOSE), ("no", [[13, A_OTHER]], R_CLOSE)],
+                     default=([], R_DISCARDED), answer0=A_OTHER)
     if name == "error":
-        return _spec(default=([[9]], R_NONE))
+        return _spec(default=([[16]], R_NONE))          # sys.exit(1)
     if name == "help":
         return _spec(default=([], R_CLOSE))
     if name in ("getinput", "getpassinput"):
         return get_input_screen_spec(conds)
     if name == "password":
-        return _spec(refresh=init_answer(A_OTHER), show=[[11], [4]], inputs=[("", [], R_DISCARDED)],
-                     default=([[13, A_OTHER]], R_CLOSE), prompt_none=1)
+        return _spec(show=[[11], [4]], inputs=[("", [], R_DISCARDED)],
+                     default=([[13, A_OTHER]], R_CLOSE), prompt_none=1, answer0=A_OTHER)
     raise ValueError(kind)
 
 
